@@ -285,6 +285,11 @@ func ReadFromSTL(i io.Reader, opts STLOptions) (o *Subtitles, err error) {
 					return nil, err
 				}
 			} else {
+				// Teletext rows should box their text, but many files (including the ones written by this
+				// package) don't: a row without any start box is displayed as a whole
+				if !bytes.Contains(text, []byte{0x0b}) {
+					text = append([]byte{0x0b}, text...)
+				}
 				parseTeletextRow(i, ch, func() styler { return newSTLStyler() }, text)
 			}
 		}
